@@ -315,8 +315,14 @@ func (api *API) mapEncodeMapKVPair(ctx context.Context, key, val reflect.Value, 
 		return "", nil, ierrors.Wrapf(err, "failed to encode map element of type %s", val.Type())
 	}
 
-	//nolint:forcetypeassert // map keys are always strings
-	return k.(string), v, nil
+	// the keys of a JSON object are strings: a key type with another map form (small numbers, bools, objects) can't be
+	// expressed
+	keyStr, ok := k.(string)
+	if !ok {
+		return "", nil, ierrors.Errorf("map key of type %s is not encoded as a string", key.Type())
+	}
+
+	return keyStr, v, nil
 }
 
 func (api *API) mapEncodeMap(ctx context.Context, value reflect.Value, ts TypeSettings, opts *options) (*orderedmap.OrderedMap, error) {
